@@ -1,19 +1,19 @@
 // dump writes coq/gen/*.v from the live code: every table the theorems
 // quantify over is re-read from /repo's working tree on every run.
+// Each table lives in its own file of this package and registers itself
+// in init() with register("XxxGen.v", func() string).
 package main
 
 import (
 	"fmt"
 	"os"
 	"path/filepath"
+	"sort"
 )
 
-func must(err error) {
-	if err != nil {
-		fmt.Fprintln(os.Stderr, err)
-		os.Exit(1)
-	}
-}
+var dumps = map[string]func() string{}
+
+func register(file string, f func() string) { dumps[file] = f }
 
 func main() {
 	if len(os.Args) < 2 {
@@ -21,6 +21,19 @@ func main() {
 		os.Exit(2)
 	}
 	dir := os.Args[1]
-	must(os.MkdirAll(dir, 0o755))
-	must(os.WriteFile(filepath.Join(dir, "EirpGen.v"), []byte(dumpEirp()), 0o644))
+	if err := os.MkdirAll(dir, 0o755); err != nil {
+		fmt.Fprintln(os.Stderr, err)
+		os.Exit(1)
+	}
+	names := make([]string, 0, len(dumps))
+	for n := range dumps {
+		names = append(names, n)
+	}
+	sort.Strings(names)
+	for _, n := range names {
+		if err := os.WriteFile(filepath.Join(dir, n), []byte(dumps[n]()), 0o644); err != nil {
+			fmt.Fprintln(os.Stderr, err)
+			os.Exit(1)
+		}
+	}
 }
